@@ -198,7 +198,7 @@ Record obs2 := { o2_key : option string; o2_hit : bool; o2_calls : nat; o2_out :
 Inductive case2 :=
 | CC (sha : alist) (steps : list (cc_cfg * obs2))
 | JF (sha : alist) (kid_conf : option string) (s0 : signer) (steps : list (jstep * option obs2))
-| HC (sha : alist) (c : hc_cfg) (steps : list (alist * obs2))
+| HC (sha : alist) (c : hc_cfg) (steps : list (hc_req * obs2))
 | JK (sha : alist) (w : jwks_world) (steps : list ((jk_cfg * jtok) * obs2)).
 
 Definition sres_matches2 (m : sres) (o : obs2) : bool :=
@@ -261,11 +261,11 @@ Fixpoint jf_hits_from (since_reload : list (jf_cfg * jreq)) (l : list (jstep * o
   end.
 
 (** (P2) for the RFC 7234 cache: the same request headers again, response storable: no call *)
-Fixpoint hc_hits_from (stores : bool) (earlier : list alist) (l : list (alist * obs2)) : bool :=
+Fixpoint hc_hits_from (stores : bool) (earlier : list hc_req) (l : list (hc_req * obs2)) : bool :=
   match l with
   | [] => true
   | (x, o) :: r =>
-    (negb (stores && existsb (alist_eqb x) earlier) || Nat.eqb (o2_calls o) 0) && hc_hits_from stores (earlier ++ [x]) r
+    (negb (stores && existsb (hc_req_eqb x) earlier) || Nat.eqb (o2_calls o) 0) && hc_hits_from stores (earlier ++ [x]) r
   end.
 
 (** (P2) for the key cache: the same token at the same instance again, key fetched before: no call *)
@@ -284,7 +284,7 @@ Definition prop2 (c : case2) : bool :=
     forallb (fun x => outcome_eqb (o2_out (snd x)) (o2_fresh (snd x))) steps && jk_hits_from w [] steps
   | HC _ cfg steps =>
     forallb (fun x => outcome_eqb (o2_out (snd x)) (o2_fresh (snd x))) steps &&
-    hc_hits_from (hc_stores false cfg) [] steps
+    hc_hits_from (hc_stores false cfg && negb (hc_is_post cfg)) [] steps
   | CC _ steps => forallb (fun x => outcome_eqb (o2_out (snd x)) (o2_fresh (snd x))) steps && cc_hits_from [] steps
   | JF _ _ _ steps => forallb (fun o => outcome_eqb (o2_out o) (o2_fresh o)) (exec_obs steps) && jf_hits_from [] steps
   end.
@@ -295,7 +295,7 @@ Definition check2 (fx5 fx8 : bool) (c : case2) : verdict :=
      v_prop := prop2 c;
      v_guards := match c with
                  | JK sha _ steps => guards [(4%Z, g_jk_F4 (H_tab sha) (map fst steps))]
-                 | HC _ cfg steps => guards [(8%Z, g_F8 fx8 cfg (map fst steps))]
+                 | HC _ cfg steps => guards [(8%Z, g_F8 fx8 cfg (map fst steps)); (9%Z, g_F9 fx8 cfg (map fst steps))]
                  | CC _ steps => guards [(4%Z, g_cc_F4 (map fst steps))]
                  | JF sha kc s0 steps => guards [(4%Z, g_jf_F4 fx5 (H_tab sha) kc s0 (map fst steps));
                                                   (5%Z, g_F5 kc s0 (map fst steps) && negb fx5)]
@@ -312,3 +312,4 @@ Definition hcc u m v c := {| hc_url := u; hc_method := m; hc_vary := v; hc_cache
 Definition jkc u h t := {| jk_url := u; jk_headers := h; jk_ttl := t |}.
 Definition jtk2 i k sg sub := {| t_iss := i; t_kid := k; t_signer := sg; t_sub := sub |}.
 Definition jko (sub : string) := jk_owner_result sub.
+Definition hrq h b := {| hq_headers := h; hq_body := b |}.
